@@ -173,6 +173,27 @@ func RunCheck(prop string, opt CheckOptions) *CheckResult {
 	var famErr error
 	familyDir := ""
 	var e *Engine
+	if pc.Family == "params" {
+		scratch, terr := os.MkdirTemp("", "govc-family-")
+		if terr != nil {
+			return engineError("%v", terr)
+		}
+		defer os.RemoveAll(scratch)
+		pfam := ParamFamily()
+		mod, gerr := GenerateParamFamily(opt.RepoDir, pfam, scratch)
+		if gerr != nil {
+			famErr = gerr
+		} else {
+			familyDir = mod
+			cfg.ModDir = mod
+			for _, q := range pfam {
+				cfg.Extra = append(cfg.Extra, ExtraPkg{Dir: filepath.Join(mod, q.ID), Pattern: "./" + q.ID})
+				b, _ := json.Marshal(q.Params)
+				family = append(family, RouteSet{ID: q.ID, Templates: []RouteTemplate{{Path: "required path parameters: " + string(b)}}})
+			}
+			cfg.Extra = append(cfg.Extra, ExtraPkg{Dir: filepath.Join(opt.RepoDir, "uri"), Pattern: "github.com/ogen-go/ogen/uri", Mirror: filepath.Join(opt.VerifDir, "contracts", "uri")})
+		}
+	}
 	if pc.Family == "validator" {
 		scratch, terr := os.MkdirTemp("", "govc-family-")
 		if terr != nil {
